@@ -28,9 +28,13 @@ def norm(v):
     if isinstance(v, (bool, numpy.bool_)):
         return ('bool', bool(v))
     if isinstance(v, T.Number):
-        return ('num', float(v.value))
+        v = v.value
     if isinstance(v, (int, float, numpy.integer, numpy.floating)):
-        return ('num', float(v))
+        try:
+            return ('num', float(v))
+        except OverflowError:
+            # an integer beyond the double range: no cell can hold it
+            return ('num', float('inf') if v > 0 else float('-inf'))
     if isinstance(v, T.Text):
         return ('text', v.value)
     if isinstance(v, str):
